@@ -23,7 +23,8 @@ SUFFIX = {"K1": "a", "K2": "b", "K3": "c"}
 
 
 def model_id(m):
-    return hashlib.sha1(json.dumps([m["b2"], m["b3"], m["f1"], m["f2"], m["f3"]], sort_keys=True).encode()).hexdigest()[:10]
+    return hashlib.sha1(json.dumps([m["b2"], m["b3"], m["f1"], m["f2"], m["f3"], bool(m.get("u2")), bool(m.get("u3"))],
+                                   sort_keys=True).encode()).hexdigest()[:10]
 
 
 def cname(c, mid):
@@ -65,8 +66,14 @@ def source(m, future=True):
     for c in ("K1", "K2", "K3"):
         base = {"K1": "-", "K2": m["b2"], "K3": m["b3"]}[c]
         fields = m["f" + c[1]]
-        out.append("@dataclass(eq=False)\n" if True else "")
-        out.append(f"class {cname(c, mid)}" + (f"({cname(base, mid)})" if base != "-" else "") + ":\n")
+        if base != "-" and m.get("u" + c[1]):
+            # an intermediate class that is not part of the model, with a field of its own
+            out.append(f"@dataclass(eq=False)\nclass U{c[1]}_{mid}({cname(base, mid)}):\n    h{SUFFIX[c]}: int = 0\n\n\n")
+            base_name = f"U{c[1]}_{mid}"
+        else:
+            base_name = cname(base, mid) if base != "-" else None
+        out.append("@dataclass(eq=False)\n")
+        out.append(f"class {cname(c, mid)}" + (f"({base_name})" if base_name else "") + ":\n")
         if not fields:
             out.append("    pass\n")
         for i, f in enumerate(fields, 1):
@@ -114,8 +121,13 @@ def source_split(m):
             out.append("if TYPE_CHECKING:\n")
             for t in refs:
                 out.append(f"    from cms_{mid}_{t} import {cname(t, mid)}\n")
+        if base != "-" and m.get("u" + c[1]):
+            out.append(f"\n\n@dataclass(eq=False)\nclass U{c[1]}_{mid}({cname(base, mid)}):\n    h{SUFFIX[c]}: int = 0\n")
+            base_name = f"U{c[1]}_{mid}"
+        else:
+            base_name = cname(base, mid) if base != "-" else None
         out.append("\n\n@dataclass(eq=False)\n")
-        out.append(f"class {cname(c, mid)}" + (f"({cname(base, mid)})" if base != "-" else "") + ":\n")
+        out.append(f"class {cname(c, mid)}" + (f"({base_name})" if base_name else "") + ":\n")
         if not fields:
             out.append("    pass\n")
         for i, f in enumerate(fields, 1):
